@@ -25,11 +25,11 @@ pub fn def() -> PropDef {
     PropDef {
         id: "C16",
         level: "model_checking",
-        rule: "explicit-state search over a store holding 5 documents — three whose namespace ids are byte-order neighbours (..FE, ..FF, successor; populated through the raw-put hook with read-only capability) and two real-key documents — with events {write entry 1/2, delete prefix, register peer, set policy, open, close, remove, re-create} per document, from the empty and from a fully populated initial state; after every event every document's complete observable content is compared with a per-document reference, removal must be refused iff open, and content_hashes() must equal the hashes of all entries held; a second family spawns a real Engine with a garbage-collection protect handler and, after every step of three scripts (0..N writes, prefix deletions, duplicate contents, removals; N = 140 quick / 600 thorough, crossing every channel capacity on the way), calls the collector's callback and requires the live set it receives to equal the hashes held; canonical state = rendering of the complete observable store content; non-trivial = histories containing a removal of a non-empty document",
+        rule: "explicit-state search over a store holding 5 documents — three whose namespace ids are byte-order neighbours (..FE, ..FF, successor; populated through the raw-put hook with read-only capability) and two real-key documents — with events {write entry 1/2, delete prefix, register peer, set policy, open, close, remove, re-create, import the write capability (an upgrade for a document created read-only)} per document, from the empty and from a fully populated initial state; after every event every document's complete observable content is compared with a per-document reference, removal must be refused iff open, and content_hashes() must equal the hashes of all entries held; a second family spawns a real Engine with a garbage-collection protect handler and, after every step of three scripts (0..N writes, prefix deletions, duplicate contents, removals; N = 140 quick / 600 thorough, crossing every channel capacity on the way), calls the collector's callback and requires the live set it receives to equal the hashes held; canonical state = rendering of the complete observable store content; non-trivial = histories containing a removal of a non-empty document",
         assumptions: &["entries of the neighbouring-id documents carry arbitrary signatures (written below the validation layer), which the properties observed here never inspect"],
         bound: |t| match t {
-            Tier::Quick => json!({"from_empty": "depth <= 3", "from_populated": "depth <= 4", "events": 41}),
-            Tier::Thorough => json!({"from_empty": "depth <= 5", "from_populated": "depth <= 5", "events": 41}),
+            Tier::Quick => json!({"from_empty": "depth <= 3", "from_populated": "depth <= 4", "events": 43}),
+            Tier::Thorough => json!({"from_empty": "depth <= 5", "from_populated": "depth <= 5", "events": 43}),
         },
         run,
         replay,
@@ -66,8 +66,10 @@ fn is_raw(d: usize) -> bool {
     d < 3
 }
 
+/// The capability a document is created with: the neighbour-id documents and the second
+/// real-key document are read-only (the latter can be upgraded later, `Ev::ImportWrite`).
 fn capability(d: usize) -> Capability {
-    if is_raw(d) {
+    if is_raw(d) || d == 4 {
         Capability::Read(doc_id(d))
     } else {
         Capability::Write(ns_secret(d as u8 - 3))
@@ -117,6 +119,10 @@ pub enum Ev {
     Close(usize),
     Remove(usize),
     Recreate(usize),
+    /// import the write capability of a real-key document (an upgrade for document 4, which is
+    /// created read-only; no change for document 3): must not affect anything else, in
+    /// particular not whether the document counts as open
+    ImportWrite(usize),
 }
 
 fn events() -> Vec<Ev> {
@@ -133,6 +139,9 @@ fn events() -> Vec<Ev> {
         v.push(Ev::Close(d));
         v.push(Ev::Remove(d));
         v.push(Ev::Recreate(d));
+        if !is_raw(d) {
+            v.push(Ev::ImportWrite(d));
+        }
     }
     v
 }
@@ -144,6 +153,8 @@ struct DocModel {
     entries: Vec<SignedEntry>, // sorted by (author, key)
     peers: Vec<[u8; 32]>,
     policy: Option<DownloadPolicy>,
+    /// the write capability has been imported
+    write: bool,
 }
 
 fn the_policy(d: usize) -> DownloadPolicy {
@@ -239,10 +250,11 @@ fn expected(m: &DocModel, d: usize) -> DocObs {
     }
     DocObs {
         listed: m.exists.then(|| {
-            if is_raw(d) {
-                CapabilityKind2::Read
-            } else {
+            let _ = d;
+            if m.write {
                 CapabilityKind2::Write
+            } else {
+                CapabilityKind2::Read
             }
         }),
         dump: m.entries.clone(),
@@ -330,7 +342,7 @@ fn exec(
                 d
             }
             Ev::DeletePrefix(d) => {
-                if !model[d].exists || model[d].open {
+                if !model[d].exists || model[d].open || !model[d].write {
                     return None;
                 }
                 set_clock(T0 + 3);
@@ -396,6 +408,17 @@ fn exec(
                 }
                 sut.store.import_namespace(capability(d)).expect("import");
                 model[d].exists = true;
+                model[d].write = matches!(capability(d), Capability::Write(_));
+                d
+            }
+            Ev::ImportWrite(d) => {
+                if !model[d].exists {
+                    return None;
+                }
+                sut.store
+                    .import_namespace(Capability::Write(ns_secret(d as u8 - 3)))
+                    .expect("import");
+                model[d].write = true;
                 d
             }
         };
